@@ -24,6 +24,11 @@ def _replay_one(rec):
     tbl = [row, cf.IDENT, cf.IDENT, cf.IDENT]
     acc = impl.accessor(live)
     sh = numpy.array(tbl, dtype=int)          # always pass the table, also when every row is the identity
+    if rec["dg"] % 2 == 0:                    # ... and for half of the experiments a table object made by the library itself (its own dtype)
+        made = impl.call(dsw.create_random_shuffles, 1, random_seed=rec["dg"] + 3)
+        if made["out"] == "ok":
+            sh = made["value"]
+            sh[:, :] = numpy.array(tbl)
     keep = sh.copy()
     kw = dict(is_faster=(rec["mode"] == "fast"), shuffles=sh)
     r = impl.call(dsw.encode, numpy.array(rec["msg"], dtype=int), acc, 0, **kw)
